@@ -6476,6 +6476,31 @@ let rec bufread_all b amts acc =
           bufread_all (body_consume (lenN got) b') rest (app acc got))
      | RErr (e, b') -> ((acc, (Failed e)), b'))
 
+(** val drain_ok : nat -> body -> bool **)
+
+let rec drain_ok fuel b =
+  match fuel with
+  | O -> false
+  | S fuel' ->
+    (match b with
+     | BFixed _ ->
+       (match body_read (Npos (XO (XO (XO (XO (XO (XO (XO (XO (XO (XO
+                XH))))))))))) b with
+        | ROk (out, b') ->
+          (match out with
+           | [] -> true
+           | _ :: _ -> drain_ok fuel' b')
+        | RErr (_, _) -> false)
+     | BChunked _ ->
+       (match body_read (Npos (XO (XO (XO (XO (XO (XO (XO (XO (XO (XO
+                XH))))))))))) b with
+        | ROk (out, b') ->
+          (match out with
+           | [] -> true
+           | _ :: _ -> drain_ok fuel' b')
+        | RErr (_, _) -> false)
+     | _ -> true)
+
 (** val drain : nat -> body -> body **)
 
 let rec drain fuel b =
@@ -6885,6 +6910,11 @@ let body_fuel b =
 let after_drop b =
   (body_src (drain (body_fuel b) b)).segs0
 
+(** val located : bool -> body -> bool **)
+
+let located failed b =
+  (&&) (negb failed) (drain_ok (body_fuel b) b)
+
 (** val reader_payload : n -> bytes **)
 
 let reader_payload n0 =
@@ -6895,7 +6925,7 @@ let reader_payload n0 =
     (seq O (N.to_nat n0))
 
 (** val run_handler :
-    app0 -> request -> body -> (response_ev list * bool) * bytes list **)
+    app0 -> request -> body -> ((response_ev list * bool) * bytes list) * bool **)
 
 let run_handler a r b =
   let resp = fun st body0 cl -> { rs_status = st; rs_body = body0; rs_close =
@@ -6906,35 +6936,42 @@ let run_handler a r b =
      let (s, b') = read_to_end (body_fuel b) b [] in
      (match s with
       | Inl data ->
-        ((((resp (Npos (XO (XO (XO (XI (XO (XO (XI XH))))))))
-             (a.describe r data) false) :: []), true), (after_drop b'))
-      | Inr _ -> (([], false), (after_drop b')))
+        (((((resp (Npos (XO (XO (XO (XI (XO (XO (XI XH))))))))
+              (a.describe r data) false) :: []), true), (after_drop b')),
+          (located false b'))
+      | Inr _ -> ((([], false), (after_drop b')), false))
    | BReadK k ->
      let (s, b') = read_k (body_fuel b) k b [] in
      (match s with
       | Inl data ->
-        ((((resp (Npos (XO (XO (XO (XI (XO (XO (XI XH))))))))
-             (a.describe r data) false) :: []), true), (after_drop b'))
-      | Inr _ -> (([], false), (after_drop b')))
+        (((((resp (Npos (XO (XO (XO (XI (XO (XO (XI XH))))))))
+              (a.describe r data) false) :: []), true), (after_drop b')),
+          (located false b'))
+      | Inr _ -> ((([], false), (after_drop b')), false))
    | BNone st ->
-     ((((resp st (a.describe r []) false) :: []), true), (after_drop b))
+     (((((resp st (a.describe r []) false) :: []), true), (after_drop b)),
+       (located false b))
    | BFirst ->
-     let (_, b') = read_to_end (body_fuel b) b [] in
-     ((((resp (Npos (XO (XO (XO (XI (XO (XO (XI XH)))))))) (a.describe r [])
-          false) :: []), true), (after_drop b'))
+     let (res0, b') = read_to_end (body_fuel b) b [] in
+     (((((resp (Npos (XO (XO (XO (XI (XO (XO (XI XH)))))))) (a.describe r [])
+           false) :: []), true), (after_drop b')),
+     (located (match res0 with
+               | Inl _ -> false
+               | Inr _ -> true) b'))
    | BHold ->
-     ((((resp (Npos (XO (XO (XO (XI (XO (XO (XI XH)))))))) (a.describe r [])
-          false) :: []), true), (after_drop b))
-   | BErr -> (([], false), (after_drop b))
+     (((((resp (Npos (XO (XO (XO (XI (XO (XO (XI XH)))))))) (a.describe r [])
+           false) :: []), true), (after_drop b)), (located false b))
+   | BErr -> ((([], false), (after_drop b)), (located false b))
    | BErrAfter ->
-     ((((resp (Npos (XO (XO (XO (XI (XO (XO (XI XH)))))))) (a.describe r [])
-          false) :: []), false), (after_drop b))
+     (((((resp (Npos (XO (XO (XO (XI (XO (XO (XI XH)))))))) (a.describe r [])
+           false) :: []), false), (after_drop b)), (located false b))
    | BClose ->
-     ((((resp (Npos (XO (XO (XO (XI (XO (XO (XI XH)))))))) (a.describe r [])
-          true) :: []), true), (after_drop b))
+     (((((resp (Npos (XO (XO (XO (XI (XO (XO (XI XH)))))))) (a.describe r [])
+           true) :: []), true), (after_drop b)), (located false b))
    | BReader n0 ->
-     ((((resp (Npos (XO (XO (XO (XI (XO (XO (XI XH))))))))
-          (reader_payload n0) false) :: []), true), (after_drop b)))
+     (((((resp (Npos (XO (XO (XO (XI (XO (XO (XI XH))))))))
+           (reader_payload n0) false) :: []), true), (after_drop b)),
+       (located false b)))
 
 type one = { o_resps : response_ev list; o_keep : bool; o_ok : bool;
              o_rest : bytes list; o_hooked : bool; o_eof : bool }
@@ -6963,13 +7000,14 @@ let handle_one_request a max_head ka sg =
           let b = from_request leftover sg' h in
           (match a.hook_of r with
            | HProceed ->
-             let (p, rest) = run_handler a r b in
-             let (resps, ok) = p in
+             let (p, loc) = run_handler a r b in
+             let (p0, rest) = p in
+             let (resps, ok) = p0 in
              let ka' = (&&) ka (negb (existsb (fun r1 -> r1.rs_close) resps))
              in
              { o_resps = resps; o_keep =
-             ((&&) ((&&) ok (negb client_close)) ka'); o_ok = ok; o_rest =
-             rest; o_hooked = true; o_eof = false }
+             ((&&) ((&&) ((&&) ok (negb client_close)) ka') loc); o_ok = ok;
+             o_rest = rest; o_hooked = true; o_eof = false }
            | HAnswer ->
              { o_resps = ({ rs_status = (Npos (XO (XO (XO (XI (XO (XO (XI
                XH)))))))); rs_body =
@@ -6979,8 +7017,8 @@ let handle_one_request a max_head ka sg =
                  true, true, false, true, true, false)), (String ((Ascii
                  (true, true, false, true, false, true, true, false)),
                  EmptyString))))))))); rs_close = false } :: []); o_keep =
-               ((&&) ka (negb client_close)); o_ok = true; o_rest =
-               (after_drop b); o_hooked = true; o_eof = false }
+               ((&&) ((&&) ka (negb client_close)) (located false b)); o_ok =
+               true; o_rest = (after_drop b); o_hooked = true; o_eof = false }
            | HAnswerClose ->
              { o_resps = ({ rs_status = (Npos (XO (XO (XO (XI (XO (XO (XI
                XH)))))))); rs_body =
@@ -7246,15 +7284,23 @@ type ending =
 | EWaiting
 | EUnspec
 
-(** val body_unspecified :
-    request -> (bytes * bytes) list -> bytes -> bool **)
+(** val body_unspecified_for :
+    app0 -> request -> (bytes * bytes) list -> bytes -> bool **)
 
-let body_unspecified _ raw after_head =
+let body_unspecified_for a r raw after_head =
   match rfc_framing raw with
   | FReject -> false
-  | x -> (match view_body x after_head with
-          | BodyUnspec -> true
-          | _ -> false)
+  | x ->
+    (match view_body x after_head with
+     | BodyOk (_, _) -> false
+     | BodyBad ->
+       (match a.hook_of r with
+        | HProceed ->
+          (match a.behaviour_of r with
+           | BReadK _ -> true
+           | _ -> false)
+        | _ -> false)
+     | BodyUnspec -> true)
 
 (** val spec_conn_f :
     nat -> app0 -> nat -> bytes -> response_ev list -> response_ev
@@ -7269,7 +7315,7 @@ let rec spec_conn_f fuel a max_head s acc =
      | _ :: _ ->
        (match parse_request (firstn max_head s) with
         | Ok r ->
-          if body_unspecified r (raw_fields (firstn max_head s))
+          if body_unspecified_for a r (raw_fields (firstn max_head s))
                (skipn r.q_offset s)
           then (acc, EUnspec)
           else let (p, rest) =
